@@ -70,6 +70,9 @@ def _safe(s):
 
 
 def _work(task):
+    import logging
+
+    logging.disable(logging.CRITICAL)      # the code under verification logs on symbolic paths
     key, variant, pid = task
     c = core.REGISTRY[key]
     t0 = time.time()
@@ -211,6 +214,7 @@ def run_property(pid: str, tier: str, seed: int, jobs: int = None, only=None):
             kid = getattr(c, "known_id", None)
             if o["kind"] == "internal":
                 drift.append(o)
+                obligations -= 1      # reported as drift; not part of the discharged/obligations ratio
                 continue
             rp = o.get("replay") or {}
             if kid and kid in known_ids and rp.get("reproduced"):
